@@ -449,7 +449,8 @@ fn c16_expected_rejections(item: &ItemSpec) -> Vec<String> {
                 }
             }
         }
-        if serde_counts && m.serde_clean.contains("with") && !m.mentioned.contains("as") && !m.mentioned.contains("type") {
+        // (a field skipped through serde has no binding either: nothing is asked of it)
+        if serde_counts && m.serde_clean.contains("with") && !m.mentioned.contains("skip") && !m.mentioned.contains("as") && !m.mentioned.contains("type") {
             why.push(format!("{pos}:serde-with-without-as-or-type"));
         }
     };
